@@ -209,19 +209,25 @@ class Specs:
         self.sources = {}
         self.assumption_scan = []
         for p in paths:
+            self._load(p, consts_only=True)
+        for p in paths:
+            self._load(p, consts_only=True)      # second sweep: constants built from constants of later files
+        for p in paths:
             self._load(p)
         self._mark_recursive()
 
-    def _load(self, path):
+    def _load(self, path, consts_only=False):
         src = open(path, encoding='utf-8').read()
         self.sources[path] = src
-        for i, line in enumerate(src.splitlines(), 1):
+        for i, line in enumerate(src.splitlines(), 1) if not consts_only else ():
             s = line.split('#')[0]
             for w in ('assume(', 'axiom(', 'trusted('):
                 if w in s:
                     self.assumption_scan.append('%s:%d: %s' % (os.path.basename(path), i, line.strip()))
         tree = ast.parse(src, filename=path)
         for node in tree.body:
+            if consts_only and not isinstance(node, ast.Assign):
+                continue
             if isinstance(node, ast.FunctionDef) and node.decorator_list:
                 d = node.decorator_list[0]
                 dname = d.func.id if isinstance(d, ast.Call) else d.id
